@@ -23,8 +23,9 @@ func key4(prefix byte, i int) string {
 }
 
 func runLarge(rng *hx.Rng, r *hx.Run) result {
-	wrap := rng.Intn(4)
+	wrap := rng.Intn(nWraps)
 	w := newWorld(rng, wrap)
+	w.reenter = false // not every call of this scenario is part of the recorded history
 	root := w.views[0].v
 	dv, err := root.WithRealm([]byte{0xd0})
 	if err != nil {
@@ -163,8 +164,9 @@ func runLarge(rng *hx.Rng, r *hx.Run) result {
 }
 
 func runCommitClose(rng *hx.Rng, r *hx.Run) result {
-	wrap := rng.Intn(4)
+	wrap := rng.Intn(nWraps)
 	w := newWorld(rng, wrap)
+	w.reenter = false // not every call of this scenario is part of the recorded history
 	res := result{desc: fmt.Sprintf("commitclose wrap=%d", wrap)}
 	n := rng.Range(300, 1500)
 	probes := []int{0, n / 2, n - 1, rng.Intn(n)}
